@@ -261,17 +261,6 @@ Proof.
     unfold nthN in Hi. eapply nth_error_In; eauto.
 Qed.
 
-Lemma scan_inputs_np : forall inputs pp prev,
-  pure_inputs inputs -> np (scan_inputs inputs pp prev).
-Proof.
-  induction inputs as [|inp rest IH]; intros pp prev Hp; cbn [scan_inputs]; [apply np_ok|].
-  destruct pp; [intros site; discriminate|].
-  inversion Hp as [|? ? Hinp Hrest]; subst.
-  apply obind_np.
-  - destruct inp; cbn; try (intros site; discriminate). destruct Hinp.
-  - intros st _. apply IH. exact Hrest.
-Qed.
-
 Lemma pure_sub : forall l m, pure_inputs l -> Forall (fun i => In i l) m -> pure_inputs m.
 Proof.
   intros l m Hl Hm. unfold pure_inputs in *. rewrite Forall_forall in *.
@@ -286,30 +275,61 @@ Section TailOnlyNP.
   Hypothesis Hpure : pure_inputs (r_inputs r).
   Hypothesis Hfw : fw_ok r fw.
 
-  Lemma tail_only_np : forall fuel S pp visited,
-    okset r S -> np (tail_only r fw fuel S pp visited).
+  (** [r_end] is always visited, so the walk only indexes the inputs at positions in range *)
+  Lemma tail_only_np_gen : forall fuel S pp visited,
+    okset r S -> In (r_end r) visited ->
+    np (tail_only r fw fuel S pp visited) /\
+    (forall v', tail_only r fw fuel S pp visited = Ok v' -> In (r_end r) v').
   Proof.
-    induction fuel as [|f IHf]; intros S pp visited HS; [intros site; discriminate|].
+    induction fuel as [|f IHf]; intros S pp visited HS Hend; [split; [intros site; discriminate|discriminate]|].
     cbn [tail_only].
     destruct (inputs_of_ok r S HS) as [inputs [Hin Hsub]]. rewrite Hin. cbn [obind].
-    apply obind_np; [apply scan_inputs_np; eapply pure_sub; eauto|].
-    intros prev _. clear Hin HS.
-    generalize S. intros ps.
-    revert visited. induction ps as [|p rest IHps]; intros visited.
-    - cbn. apply np_ok.
+    destruct (first_clash pp inputs); [split; [intros site; discriminate|discriminate]|].
+    clear Hin.
+    match goal with |- np (?F S visited) /\ _ =>
+      assert (Hloop : forall ps visited, (forall p, In p ps -> In p S) -> In (r_end r) visited ->
+                np (F ps visited) /\ (forall v', F ps visited = Ok v' -> In (r_end r) v'));
+      [|apply Hloop; auto] end.
+    clear visited Hend. intros ps.
+    induction ps as [|p rest IHps]; intros visited Hps Hend.
+    - cbn. split; [apply np_ok|]. intros v' H. inversion H; subst. exact Hend.
     - cbn -[memN assocN tail_only].
-      destruct (memN p visited); [apply IHps|].
-      destruct (assocN p fw) as [follow|] eqn:Ha; [|apply IHps].
-      apply obind_np; [apply IHf; exact (Hfw _ _ Ha)|].
-      intros v1 _. apply IHps.
+      assert (Hrest : forall q, In q rest -> In q S) by (intros q Hq; apply Hps; right; exact Hq).
+      destruct (memN p visited) eqn:Hm; [apply IHps; assumption|].
+      destruct (assocN p fw) as [follow|] eqn:Ha; [|apply IHps; assumption].
+      assert (Hne : p <> r_end r).
+      { intro Heq. subst p. assert (memN (r_end r) visited = true).
+        { unfold memN. apply existsb_exists. exists (r_end r). split; [exact Hend|apply N.eqb_refl]. }
+        congruence. }
+      destruct (HS p (Hps p (or_introl eq_refl))) as [Heq|[i Hi]]; [contradiction|].
+      assert (Hia : input_at r p = Ok i) by (unfold input_at; rewrite Hi; reflexivity).
+      rewrite Hia. cbn [obind].
+      assert (Hpi : no_sub i).
+      { unfold pure_inputs in Hpure. rewrite Forall_forall in Hpure. apply Hpure.
+        unfold nthN in Hi. eapply nth_error_In; eauto. }
+      assert (Hst : exists st, is_star_subword i = Ok st).
+      { destruct i; cbn; try (eexists; reflexivity). destruct Hpi. }
+      destruct Hst as [st Hst]. rewrite Hst. cbn [obind].
+      destruct (IHf follow (opt_or pp (if st then Some i else None)) (p :: visited) (Hfw _ _ Ha)
+                    (or_intror Hend)) as [Hnp Hev].
+      destruct (tail_only r fw f follow (opt_or pp (if st then Some i else None)) (p :: visited))
+        as [v1|e|m|] eqn:Hrec; cbn [obind].
+      + apply IHps; [exact Hrest|]. apply Hev. reflexivity.
+      + split; [intros site; discriminate|discriminate].
+      + exfalso. exact (Hnp m eq_refl).
+      + split; [intros site; discriminate|discriminate].
   Qed.
+
+  Lemma tail_only_np : forall fuel S pp visited,
+    okset r S -> In (r_end r) visited -> np (tail_only r fw fuel S pp visited).
+  Proof. intros. apply tail_only_np_gen; assumption. Qed.
 End TailOnlyNP.
 
 Theorem check_tail_only_np : forall rr, pool_ok rr -> np (check_tail_only rr).
 Proof.
   intros rr [Hrg Hpure]. unfold check_tail_only.
   apply obind_np; [|intros; apply np_ok].
-  apply tail_only_np; [exact Hpure|apply ranged_follow; exact Hrg|apply ranged_first; exact Hrg].
+  apply tail_only_np; [exact Hpure|apply ranged_follow; exact Hrg|apply ranged_first; exact Hrg|left; reflexivity].
 Qed.
 
 (** *** [check_subwords] on the main regex *)
